@@ -92,6 +92,16 @@ def _walk(obj, path, slots, shape, seen, depth=0, light=False):
                 names.append(k)
                 _walk(v, "%s.%s" % (path, k), slots, shape, seen, depth + 1, light)
         shape.append((path, "object", tuple(names)))
+        # tensors the object holds through its class (not overridden by the instance): the same tensor
+        # objects must be held the same way afterwards (no entry of the instance's own)
+        inherited = []
+        for klass in type(obj).__mro__:
+            for k, v in vars(klass).items():
+                if isinstance(v, torch.Tensor) and k not in obj.__dict__ and k not in inherited:
+                    inherited.append(k)
+                    _walk(v, "%s.%s" % (path, k), slots, shape, seen, depth + 1, light)
+        if inherited:
+            shape.append((path, "inherited", tuple(inherited)))
         return
 
 
